@@ -16,15 +16,15 @@ import (
 
 // a replication workload: requests issued on the leader at fixed virtual instants; the follower joins at JoinAt
 type replWorkload struct {
-	Name      string
-	Steps     []TStep
-	JoinAt    int64
-	EndAt     int64
-	LeaderMod func(c *hapi.Config)
-	Stale     bool // the follower starts from a stale directory (it had synced an earlier prefix, then was down)
-	Burst     int  // >0: at BurstAt the leader->follower stream is held back, Burst records are produced, then the stream is released at once
-	BurstAt   int64
-	Sparse    bool // cut positions on a coarse grid only (long streams)
+	Name            string
+	Steps           []TStep
+	JoinAt          int64
+	EndAt           int64
+	LeaderMod       func(c *hapi.Config)
+	Stale           bool // the follower starts from a stale directory (it had synced an earlier prefix, then was down)
+	Burst           int  // >0: at BurstAt the leader->follower stream is held back, Burst records are produced, then the stream is released at once
+	BurstAt         int64
+	Sparse          bool  // cut positions on a coarse grid only (long streams)
 	RestartLeaderAt int64 // >0: the leader is killed and started again on its directory at this instant (its ring is then empty)
 }
 
